@@ -321,6 +321,10 @@ class Gen:
                     vs.append("other")
                 b.append((f, vs))
             bugs.append(b)
+        # deterministic probes: exactly one word in one field, everything in the other fields
+        singles = [(f, w) for f, u in uni.items() for w in u[:3]]
+        for f, w in singles[:5]:
+            bugs.append([(g, [w] if g == f else list(u)) for g, u in uni.items()])
         return bugs
 
 
